@@ -992,6 +992,10 @@ func init() {
 				return err
 			}
 			account(a)
+			// gen_cov.go: CarBlock.Offset / Length of every delivered block locate its bytes in the archive
+			if detail, _ := covC12Offsets(a.bytes); detail != "" && len(st.Direct) < 200 {
+				st.Direct = append(st.Direct, c12Direct{"carblock-offset", "roundtrip", hex.EncodeToString(a.bytes), detail, ""})
+			}
 			if err := c12WriteArchive(o, a, c12Mutations(r, a, 420, sample), st, &fileNo, false); err != nil {
 				return err
 			}
